@@ -31,10 +31,10 @@ func Verify(ctx context.Context, in io.Reader, key *dsig.PublicKey) error {
 		return wrapErrorf(StatusBadRequest, "public key required")
 	}
 	if !env.Signed() {
-		return wrapErrorf(http.StatusUnprocessableEntity, "envelope is not signed")
+		return wrapError(http.StatusUnprocessableEntity, gobl.ErrSignature.WithReason("envelope is not signed"))
 	}
 	if err := env.Signatures[0].VerifyPayload(key, new(head.Header)); err != nil {
-		return wrapError(http.StatusUnprocessableEntity, err)
+		return wrapError(http.StatusUnprocessableEntity, gobl.ErrSignature.WithCause(err))
 	}
 	// the key matches: also ensure that what was signed is the header
 	// of this envelope, and not that of another document.
